@@ -37,10 +37,14 @@ TSpec == TInit /\ [][TNext]_tvars
 Kinds(q) == [i \in 1..Len(q) |-> q[i].k]
 View4(a) == IF Has(inv, a) THEN [has |-> TRUE, c |-> inv[a].c, f |-> inv[a].f] ELSE [has |-> FALSE, c |-> NONE, f |-> NONE]
 Mismatch(ev, prev) ==
-  {k \in {"structure_to_rt", "structure_to_nrt", "backend_messages", "value_out_of_range", "value_not_monotone", "learn_queue", "bindings",
+  {k \in {"structure_to_rt", "structure_to_nrt", "unassigned_controller_not_announced", "backend_messages", "value_out_of_range", "value_not_monotone", "learn_queue", "bindings",
           "LearnOrder", "UniqueIds", "GenConsistent", "DrivesItsAddress", "AssignedIsLive"} :
    ~ CASE k = "structure_to_rt"  -> ev.to_rt = Kinds(toRT)
        [] k = "structure_to_nrt" -> ev.to_nrt = toNRT
+       \* the property's first step: a controller that is neither assigned nor already announced arrives while the realtime half has been told to
+       \* watch - it must be announced to the other half (that is the only way it can ever be assigned to the oldest queued address).
+       \* Stated as: the model announces it and the real object stays silent.
+       [] k = "unassigned_controller_not_announced" -> ~ (ev.op = "cc" /\ Len(toNRT) = Len(ev.to_nrt) + 1 /\ SubSeq(toNRT, 1, Len(ev.to_nrt)) = ev.to_nrt)
        [] k = "backend_messages" -> Len(ev.out) = Len(out) /\ \A i \in 1..Len(out) : ev.out[i].a = out[i].addr
        [] k = "value_out_of_range" -> \A i \in 1..Len(ev.out) : ev.out[i].v >= Info(ev.out[i].a).lo /\ ev.out[i].v <= Info(ev.out[i].a).hi
                                                             /\ (Info(ev.out[i].a).int <=> ev.out[i].ty = "i")
